@@ -386,7 +386,15 @@ impl Prop for C03 {
                 // so nothing is left to integrate, yet the status is not Success. (A run that
                 // stops a few ulps short may honestly believe there is more to do.)
                 let covered_exactly = span_end.map(|e| e.to_bits() == sc.xend.to_bits()).unwrap_or(false);
-                if covered_exactly && !terminal_reached {
+                // (only on runs in which no injected fault fired: a solver that has landed on xend
+                // without noticing re-evaluates the RHS there once more - xend is inside the closed
+                // interval - and if that evaluation is the faulted one, the non-success status is
+                // the honest outcome C04 asks for under faults)
+                let fired: u64 = r.st.fired.iter().sum();
+                if covered_exactly && !terminal_reached && fired > 0 {
+                    cov.bump("honesty.covered_but_failed_after_a_fault");
+                }
+                if covered_exactly && !terminal_reached && fired == 0 {
                     v.push(viol(P, "covered_not_success", format!("the integration covered the whole interval (dense span ends at {:?}, xend={:e}) but status is {}", span_end, sc.xend, status_name(other))));
                 }
                 if terminal_reached {
